@@ -1342,6 +1342,14 @@ def cases(tier, ops=None):
         twins = {}
         for inputs, params in op.gen(tier):
             yield dict(op=name, inputs=inputs, params=params)
+            # aliased twins: the SAME array object in every argument position (first few multi-block cases per variant)
+            if len(inputs) >= 2 and name != "searchsorted" and not getattr(op, "special", False) and all(
+                    (i["shape"], i["dtype"], i.get("kind")) == (inputs[0]["shape"], inputs[0]["dtype"], inputs[0].get("kind")) for i in inputs) \
+                    and any(n > c for n, c in zip(inputs[0]["shape"], inputs[0]["chunks"])):
+                key = json.dumps(["alias", params.get("fn"), params.get("axis"), params.get("mode")], default=str)
+                if twins.get(key, 0) < per:
+                    twins[key] = twins.get(key, 0) + 1
+                    yield dict(op=name, inputs=inputs, params=dict(params, alias=True))
             # negative-axis twins: the first few multi-block cases of every (operation, variant, axis value)
             if any(n > c for i in inputs for n, c in zip(i["shape"], i["chunks"])):
                 q = _negative_twin(name, inputs, params)
